@@ -321,7 +321,7 @@ class _ParseTreeProcessor(parsimonious.NodeVisitor):
         return _serializable.VoidType(width)
 
     def visit_type_bit_length_suffix(self, node: _Node, _c: _Children) -> int:
-        return int(node.text)
+        return _parse_decimal_integer(node.text)
 
     # ================================================== Expressions ==================================================
 
@@ -436,13 +436,19 @@ class _ParseTreeProcessor(parsimonious.NodeVisitor):
         return _expression.Set(exp_list)
 
     def visit_literal_real(self, node: _Node, _c: _Children) -> _expression.Rational:
-        return _expression.Rational(fractions.Fraction(node.text.replace("_", "")))
+        try:
+            return _expression.Rational(fractions.Fraction(node.text.replace("_", "")))
+        except ValueError:  # See _parse_decimal_integer()
+            raise DSDLSyntaxError("The real literal is too long: %d characters" % len(node.text)) from None
 
     def visit_literal_integer(self, node: _Node, _c: _Children) -> _expression.Rational:
-        return _expression.Rational(int(node.text.replace("_", ""), base=0))
+        try:
+            return _expression.Rational(int(node.text.replace("_", ""), base=0))
+        except ValueError:  # See _parse_decimal_integer()
+            raise DSDLSyntaxError("The integer literal is too long: %d characters" % len(node.text)) from None
 
     def visit_literal_integer_decimal(self, node: _Node, _c: _Children) -> _expression.Rational:
-        return _expression.Rational(int(node.text.replace("_", "")))
+        return _expression.Rational(_parse_decimal_integer(node.text.replace("_", "")))
 
     def visit_literal_boolean_true(self, _n: _Node, _c: _Children) -> _expression.Boolean:
         return _expression.Boolean(True)
@@ -460,6 +466,17 @@ class _ParseTreeProcessor(parsimonious.NodeVisitor):
 #
 # Internal helper functions.
 #
+def _parse_decimal_integer(text: str) -> int:
+    """
+    The grammar guarantees that the text consists of decimal digits, so the conversion can only fail because CPython
+    refuses to convert decimal strings longer than sys.get_int_max_str_digits() (4300 digits by default).
+    """
+    try:
+        return int(text)
+    except ValueError:
+        raise DSDLSyntaxError("The decimal number is too long: %d digits" % len(text)) from None
+
+
 def _unwrap_array_capacity(ex: _expression.Any) -> int:
     assert isinstance(ex, _expression.Any)
     if isinstance(ex, _expression.Rational):
